@@ -743,16 +743,16 @@ func Stack[V any](arguments ...any) col.StackLike[V] {
 	case sequence != nil:
 		stack = class.MakeFromSequence(sequence)
 	case len(source) > 0:
-		stack = class.Make()
 		var collection = notation.ParseSource(source).(col.Sequential[any])
 		// Convert the values to their real type.  The first value in the source
-		// is the top of the stack so the values are pushed in reverse order.
+		// is the top of the stack and the stack must be able to hold them all.
+		var converted = make([]V, 0, collection.GetSize())
 		var iterator = collection.GetIterator()
-		iterator.ToEnd()
-		for iterator.HasPrevious() {
-			var value = iterator.GetPrevious().(V)
-			stack.AddValue(value)
+		for iterator.HasNext() {
+			var value = iterator.GetNext().(V)
+			converted = append(converted, value)
 		}
+		stack = class.MakeFromArray(converted)
 	default:
 		stack = class.Make()
 	}
